@@ -1520,7 +1520,7 @@ fn read_subframes<R: BitRead>(
                     read_subframe(&mut reader, side_bps, side)?;
 
                     left.iter().zip(side.iter_mut()).for_each(|(left, side)| {
-                        *side = *left - *side;
+                        *side = left.wrapping_sub(*side);
                     });
                 }
                 None => {
@@ -1556,7 +1556,7 @@ fn read_subframes<R: BitRead>(
                     read_subframe(&mut reader, header.bits_per_sample.into(), right)?;
 
                     side.iter_mut().zip(right.iter()).for_each(|(side, right)| {
-                        *side += *right;
+                        *side = side.wrapping_add(*right);
                     });
                 }
                 None => {
@@ -1594,9 +1594,9 @@ fn read_subframes<R: BitRead>(
                     read_subframe(&mut reader, side_bps, side)?;
 
                     mid.iter_mut().zip(side.iter_mut()).for_each(|(mid, side)| {
-                        let sum = *mid * 2 + side.abs() % 2;
-                        *mid = (sum + *side) >> 1;
-                        *side = (sum - *side) >> 1;
+                        let sum = mid.wrapping_mul(2).wrapping_add(side.wrapping_abs() % 2);
+                        *mid = sum.wrapping_add(*side) >> 1;
+                        *side = sum.wrapping_sub(*side) >> 1;
                     });
                 }
                 None => {
@@ -1737,15 +1737,18 @@ fn predict<I: SignedInteger>(coefficients: &[i64], qlp_shift: u32, channel: &mut
     for split in coefficients.len()..channel.len() {
         let (predicted, residuals) = channel.split_at_mut(split);
 
-        residuals[0] += I::from_i64(
-            predicted
-                .iter()
-                .rev()
-                .zip(coefficients)
-                .map(|(x, y)| (*x).into() * y)
-                .sum::<i64>()
-                >> qlp_shift,
-        );
+        // samples derived from damaged (or 32-bit) input may not fit,
+        // so wrap instead of overflowing
+        let prediction = predicted
+            .iter()
+            .rev()
+            .zip(coefficients)
+            .fold(0i64, |acc, (x, y)| {
+                acc.wrapping_add((*x).into().wrapping_mul(*y))
+            })
+            >> qlp_shift;
+
+        residuals[0] = I::from_i64(residuals[0].into().wrapping_add(prediction));
     }
 }
 
